@@ -11,14 +11,14 @@ PY = "/venv/bin/python"
 CHECKS = {
     "C01": (
         "exhaustive small-scope enumeration + Hypothesis expression trees against an order-cell reference model",
-        "All ordered pairs of canonical interval sets over <=4 (quick) / <=5 (thorough) distinct bounds, for 4 bound-shape assignments and both spellings of the universal set, are enumerated completely and every &, |, ~ result is compared cell-by-cell with set intersection/union/complement; Hypothesis adds expression trees over parsed texts and cell-constructed operands with up to 6 bounds of arbitrary PEP 440 shape. Complete for every order type within the scope, sampling beyond it.",
+        "All ordered pairs of canonical interval sets over <=4 (quick) / <=5 (thorough) distinct bounds, for 5 bound-shape assignments (one with the release 0 as a bound) and both spellings of the universal set, are enumerated completely and every &, |, ~ result is compared cell-by-cell with set intersection/union/complement; Hypothesis adds expression trees over parsed texts and cell-constructed operands with up to 6 bounds of arbitrary PEP 440 shape. Complete for every order type within the scope, sampling beyond it.",
         "Trusts packaging.version.Version ordering; membership read structurally (interval semantics) as the property states.",
         "DESIGN.md §5 C01",
     ),
     "C02": (
         "exhaustive atom pair/triple tables + Hypothesis operand expressions against a shadow AST (packaging for atoms) on an environment grid",
-        "Complete tables of ordered pairs of all python_version/python_full_version atoms (7 operators, wildcards, in/not in lists, both operand orders, one-, two- and three-segment and pre-release literals), pairs and triples on one string variable, every pair of ==/!= groups on one variable, on extra (set-valued) and on platform_release (incl. non-version literals), wide DNF/CNF markers against the neutral/absorbing elements, every case evaluated on its whole value grid; Hypothesis adds parse results of nested and/or trees (free, variable-related, shared-factor and wide shapes), closure under & and |, Empty/Any operands. Checked: the relation as stated (result vs its operands), the independent reference, and is_empty()/is_any().",
-        "Atom truth from packaging 26.3; version variables: grid contains every critical value and a point in every gap (exact), string variables: relation-closed sample. M4 rows (known finding) excluded and counted. A per-case SIGALRM cap counts as inconclusive.",
+        "Complete tables of ordered pairs of all python_version/python_full_version atoms (7 operators, wildcards, in/not in lists, both operand orders, one-, two- and three-segment, X.Y.Z.* wildcard, v-/epoch-prefixed, pre- and post-release literals), pairs and triples on one string variable, every pair of ==/!= groups on one variable, on extra (set-valued) and on platform_release (incl. non-version literals), wide DNF/CNF markers against the neutral/absorbing elements, the consensus shape (not x and P)|(x and Q) and its dual, disjunctions sharing a child, every case evaluated on its whole value grid; Hypothesis adds parse results of nested and/or trees (free, variable-related, shared-factor and wide shapes), closure under & and |, Empty/Any operands. Checked: the relation as stated (result vs its operands), the independent reference, and is_empty()/is_any().",
+        "Atom truth from packaging 26.3; version variables: grid contains every critical value and a point in every gap (exact), string variables: relation-closed sample. M4 rows and the S4a-through-markers case class (known findings) excluded and counted. A per-case SIGALRM cap counts as inconclusive.",
         "DESIGN.md §5 C02",
     ),
     "C03": (
@@ -28,14 +28,14 @@ CHECKS = {
         "DESIGN.md §5 C03",
     ),
     "C04": (
-        "Hypothesis expression trees, differential against packaging.SpecifierSet on final-release candidates",
-        "Random &,|,~ trees over PEP 440 clause sets (all operators incl. ~=, wildcards, epochs, alternative spellings) are evaluated by dep-logic and, leaf-wise, by packaging; `in` and contains() must equal the Boolean combination on 30-80 final releases chosen around every bound. Sampling of an infinite space; candidates are placed where the two can differ (each bound, +-1 on its last two segments, shorter/longer, epoch variants).",
+        "exhaustive cell-pair trees + Hypothesis expression trees, differential against packaging.SpecifierSet on final-release candidates",
+        "Every ordered pair of sets over three bounds, written as text, combined and then complemented / intersected once more (16 000 pairs x 3 tree shapes; thorough: 3 bound triples); random &,|,~ trees over PEP 440 clause sets (all operators incl. ~=, wildcards, epochs, alternative spellings) are evaluated by dep-logic and, leaf-wise, by packaging; `in` and contains() must equal the Boolean combination on 30-80 final releases chosen around every bound. Sampling of an infinite space; candidates are placed where the two can differ (each bound, +-1 on its last two segments, shorter/longer, epoch variants).",
         "Trusts packaging's SpecifierSet.contains for final releases. S4a (known finding) class excluded and counted.",
         "DESIGN.md §5 C04",
     ),
     "C05": (
         "exhaustive small-scope enumeration + Hypothesis, structural validator and ==/cell-set equivalence",
-        "Same enumeration as C01 (all ordered pairs over <=4/<=5 bounds x 4 assignments x 2 universal spellings): every result must be structurally canonical, == (both directions) to the canonical object of the expected cell set, != a neighbouring set, with exact is_empty()/is_any(); Hypothesis trees compare all node results pairwise (== <=> same cells).",
+        "Same enumeration as C01 (all ordered pairs over <=4/<=5 bounds x 5 assignments x 2 universal spellings): every result must be structurally canonical, == (both directions) to the canonical object of the set its operands define, != a neighbouring set, with exact is_empty()/is_any(); Hypothesis trees compare all node results pairwise (== <=> same cells); a twin-spelling layer demands that texts denoting one set by definition (~=V.N / >=V.N,==V.*; ==V / >=V,<=V; !=V, <V, <=V, !=X.* / complements) parse to == objects.",
         "Canonical shape taken literally from the property statement; Version ordering trusted.",
         "DESIGN.md §5 C05",
     ),
@@ -53,7 +53,7 @@ CHECKS = {
     ),
     "C08": (
         "exhaustive tag-universe grid + Hypothesis specs/compressed tag sets against a rule predicate over a packaging-decided interpreter grid",
-        "30 requires_python shapes x 5 implementation/gil settings x every single (python, abi) tag of the stated universe (170 python tags x ~14 ABIs incl. flag combinations m/d/u/t/td, prefix look-alikes such as cp31/cp312, pypy/pyston ABIs) decided exhaustively, plus generated requires_python texts with compressed tag sets; verdict and the first three score components must equal the statement's rule evaluated on the dense interpreter grid X.Y.Z (Z<=40).",
+        "33 requires_python shapes (incl. unions one branch of which ends exactly on a tag's X.Y) x 5 implementation/gil settings x every single (python, abi) tag of the stated universe (170 python tags x ~14 ABIs incl. flag combinations m/d/u/t/td, prefix look-alikes such as cp31/cp312, pypy/pyston ABIs) decided exhaustively, plus generated requires_python texts with compressed tag sets; verdict and the first three score components must equal the statement's rule evaluated on the dense interpreter grid X.Y.Z (Z<=40).",
         "Which interpreters requires_python admits is decided by packaging.SpecifierSet, not by dep-logic; grid/interval-ambiguous specs and empty specs refused by from_spec are skipped and counted.",
         "DESIGN.md §5 C08",
     ),
@@ -65,7 +65,7 @@ CHECKS = {
     ),
     "C10": (
         "Hypothesis rule-based state machine over parse/&/|/reparse/variant histories; warm-vs-cold differential oracle, fresh-interpreter cross-check",
-        "Three layers. (1) Rule-based state machine: histories of up to 30 (quick) / 50 (thorough) operations parse / & / | / reparse / variant / permuted over per-history atom families (29 base atoms x 4 spellings, chosen so that cache keys collide); every step is a probe whose warm observation (text, class, truth table, is_any/is_empty) must equal the cold recomputation of its recipe with every cache found in dep_logic (module level and on methods) cleared and fresh objects. (2) Exhaustive small scope: for each atom family every history of ONE binary operation x every probe `x op y`, `(x op y) op z`. (3) Fresh interpreters: ~2 600 single parse_marker calls per family evaluated in new processes that differ only in PYTHONHASHSEED must agree; sample probes of (1) are also recomputed in a new process.",
+        "Three layers. (1) Rule-based state machine: histories of up to 30 (quick) / 50 (thorough) operations parse / & / | / reparse / variant / permuted over per-history atom families (29 base atoms x 4 spellings, chosen so that cache keys collide); every step is a probe whose warm observation (text, class, truth table, is_any/is_empty) must equal - and whose warm result object must be == and hash like - the cold recomputation of its recipe with every cache found in dep_logic (module level and on methods) cleared and fresh objects. (2) Exhaustive small scope: for each atom family every history of ONE binary operation x every probe `x op y`, `(x op y) op z`. (3) Fresh interpreters: ~2 600 single parse_marker calls per family evaluated in new processes that differ only in PYTHONHASHSEED must agree; sample probes of (1) are also recomputed in a new process.",
         "Cold = all functools caches found in dep_logic cleared; single thread; histories bounded; layers (1)-(2) run under PYTHONHASHSEED=0.",
         "DESIGN.md §5 C10",
     ),
@@ -76,20 +76,20 @@ CHECKS = {
         "DESIGN.md §5 C11",
     ),
     "C12": (
-        "Hypothesis operand expressions x variable subsets + fixed nested shapes x all subsets; structural (mentioned variables) and truth-table implication oracle",
-        "For a, b, a&b, a|b and a fixed set of nested texts: only(N) mentions no variable outside N at any depth, is implied by m on every row, equals m when N covers m's variables; exclude(x)/without_extras never mention x and are the identity in meaning when x is not mentioned.",
+        "exhaustive guarded-DNF tables + Hypothesis operand expressions x variable subsets + fixed nested shapes x all subsets; structural (mentioned variables) and truth-table implication oracle",
+        "For a, b, a&b, a|b, a fixed set of nested texts and every marker (x1 and g1) or (x2 and g2) or x3 / (x1 or g1) and (x2 or g2) with x1..x3 atoms on one variable family kept apart by guards on another variable (so that only()/exclude() unite them for the first time): only(N) mentions no variable outside N at any depth, is implied by m on every row, equals m when N covers m's variables; exclude(x)/without_extras never mention x and are the identity in meaning when x is not mentioned.",
         "Nothing is asserted about exclude() of a mentioned variable beyond absence, as in the statement.",
         "DESIGN.md §5 C12",
     ),
     "C13": (
         "exhaustive fixed pools of coincidence objects + Hypothesis pools, relational oracle (reflexive/symmetric/transitive/hash/interchangeable)",
-        "All pairs and triples of a fixed pool of ~60 specifier objects and ~70 marker objects built to contain cross-class equalities, cached-field variants and mirrored atoms, plus generated pools with differently-built copies; equal objects must hash alike, collapse in sets and give results of the same meaning as operands.",
+        "All pairs and triples of a fixed pool of ~70 specifier objects and ~70 marker objects built to contain cross-class equalities, cached-field variants and mirrored atoms, plus generated pools with differently-built copies; equal objects must hash alike, collapse in sets, give results of the same meaning as operands and (specifiers) admit the same final releases through `in`/contains().",
         "Meaning of results: order-cell model (specifiers) / truth table on the environment grid (markers). Operands are drawn from the same family as the compared pair.",
         "DESIGN.md §5 C13",
     ),
     "C14": (
         "exhaustive triples (small scope) + Hypothesis triples; algebraic laws, no reference model",
-        "19 laws on every ordered triple of canonical sets over 2 bounds (x4 assignments x2 universal spellings) and a seed-chosen 1/8 slice of the 2M triples over 3 bounds in quick, all of them in thorough; Hypothesis triples with arbitrary shapes; marker laws by truth-table equality on generated triples.",
+        "19 laws on every ordered triple of canonical sets over 2 bounds (x5 assignments x2 universal spellings) and a seed-chosen 1/8 slice of the 2M triples over 3 bounds in quick, all of them in thorough; Hypothesis triples with arbitrary shapes; marker laws by truth-table equality on every ordered triple of single atoms of one variable family (string, extra, Python version, platform_release tables) and on generated triples.",
         "Laws are judged with the library's own == (specifiers) / evaluate() (markers).",
         "DESIGN.md §5 C14",
     ),
@@ -101,13 +101,13 @@ CHECKS = {
     ),
     "C16": (
         "exhaustive pairs over a configuration grid + Hypothesis requires_python pairs; relational (monotonicity / nesting / compare laws) oracle",
-        "2280 EnvSpecs (19 requires_python x 30 platforms x 4 implementations): all 5.2M ordered pairs for the compare() relations, all same-(platform, implementation) pairs for wheel monotonicity over 176 wheels, all same-family platform release pairs for tag nesting; generated requires_python pairs on top.",
+        "2640 EnvSpecs (22 requires_python x 30 platforms x 4 implementations): all 7M ordered pairs for the compare() relations, all same-(platform, implementation) pairs for wheel monotonicity over 176 wheels, all same-family platform release pairs for tag nesting; generated requires_python pairs on top.",
         "Subset of requires_python decided with packaging on final, sub-micro and pre-release probe points; documented platform families only.",
         "DESIGN.md §5 C16",
     ),
     "C17": (
         "Hypothesis grammar + near-miss mutation strings, differential against packaging.SpecifierSet; atheris coverage-guided bytes in thorough",
-        "Valid sets with every spelling the reference accepts, one-edit near misses, ||-joins and <empty>: acceptance must coincide with packaging, rejection must be dep-logic's InvalidSpecifier only, from_specifierset must not raise.",
+        "Valid sets with every spelling the reference accepts, one-edit near misses, ||-joins and <empty>, and every set over three bounds written as ||-alternatives in every order: acceptance must coincide with packaging, rejection must be dep-logic's InvalidSpecifier only, from_specifierset must not raise.",
         "+local operands, empty || alternatives and || with === are outside the claim and skipped (counted).",
         "DESIGN.md §5 C17",
     ),
